@@ -258,6 +258,13 @@ def stepModel (s : S α) (op : List String) : Option (S α × String) :=
       let w := { w with c1 := a == "1", c2 := b == "1", cx := c == "1" }
       some ({ s with w := some w }, "ok r=" ++ showBool w.c1 ++ showBool w.c2 ++ showBool w.cx ++ stateStr (some w) w.fn)
     | none => none
+  | ["en1", a] | ["en2", a] | ["enx", a] =>
+    match s.w with
+    | some w =>
+      let o := op.headD ""
+      let w := if o == "en1" then { w with c1 := a == "1" } else if o == "en2" then { w with c2 := a == "1" } else { w with cx := a == "1" }
+      some ({ s with w := some w }, "ok r=" ++ showBool w.c1 ++ showBool w.c2 ++ showBool w.cx ++ stateStr (some w) w.fn)
+    | none => none
   | "get" :: what :: r =>
     match s.w with
     | some w =>
@@ -545,8 +552,10 @@ def verdictExact (poly : List (Mono Rat)) (wPre wB : W Rat) (callerList : PList 
       else if wB.scheme != .two && deg ≤ 2 && !exactTok i2 a2 true then "FAIL:d2_exact_deg2"
       -- without constraints the probes are symmetric
       else if fr && wB.scheme == .two && deg ≤ 1 && !exactTok i1 a1 false then "FAIL:two_point_exact_deg1"
-      else if fr && wB.scheme == .three && deg ≤ 2 && !exactTok i1 a1 false then "FAIL:three_point_d1_exact_deg2"
-      else if fr && wB.scheme == .three && deg ≤ 3 && !exactTok i2 a2 false then "FAIL:three_point_d2_exact_deg3"
+      -- (three-point scheme: symmetric for a positive step, the hypothesis of `three_point_stored_exact`;
+      -- with a negative step the second probe is on the same side as the first one)
+      else if fr && wB.scheme == .three && decide (wB.h > 0) && deg ≤ 2 && !exactTok i1 a1 false then "FAIL:three_point_d1_exact_deg2"
+      else if fr && wB.scheme == .three && decide (wB.h > 0) && deg ≤ 3 && !exactTok i2 a2 false then "FAIL:three_point_d2_exact_deg3"
       else if fr && wB.scheme == .five && deg ≤ 4 && !exactTok i1 a1 false then "FAIL:five_point_d1_exact_deg4"
       else if fr && wB.scheme == .five && deg ≤ 5 && !exactTok i2 a2 false then "FAIL:five_point_d2_exact_deg5"
       else acc) "ok"
@@ -644,6 +653,15 @@ def step (st : St) (op : List String) (impl : Option (List String)) : St × Stri
             | _ => "ok"
           else if o == "enable" then
             if field t "r=" == some (String.join rest) then "ok" else "FAIL:enable_readback"
+          else if o == "en1" || o == "en2" || o == "enx" then
+            -- one switch alone: the two others keep their state
+            match st.f.w with
+            | some w =>
+              let a := rest.headD ""
+              let want := (if o == "en1" then a else showBool w.c1) ++ (if o == "en2" then a else showBool w.c2)
+                ++ (if o == "enx" then a else showBool w.cx)
+              if field t "r=" == some want then "ok" else "FAIL:enable_readback"
+            | none => "ok"
           else if o == "get" then
             match st.f.w, rest with
             | some w, what :: ns =>
